@@ -15,6 +15,9 @@ RULE = (
     'executing (harness ground truth: released and unanswered). Non-trivial: '
     'some release happens while another unit is in flight and the engine has '
     'a dependency path of length >= 2. Distinct = SHA-1 of case JSON.'
+    ' Parts faults / retry: db.next() fails once on the first to third job '
+    'of a batch; units the farm holds for its retry are judged when the sch'
+    'eduler released them. '
 )
 ASSUMPTIONS = [
     'workers answer only tasks they were handed, at most once',
